@@ -277,6 +277,16 @@ def make_case(ctx, g, in_domain=True):
                 w.new_record(d, "Association", None, [("prov:activity", a), ("prov:agent", ag1)])
                 w.new_record(d, "Association", None, [("prov:activity", a), ("prov:agent", ag2), ("prov:plan", b.name())])
                 scenario = KNOWN["plain-and-qualified-same-subject"]
+    if g.chance(0.2):
+        # second chapter: written once, more records added in place, and only then written for the record
+        try:
+            with warnings.catch_warnings():
+                warnings.simplefilter("ignore")
+                w.conts[d].serialize(format="rdf")
+        except Exception:  # noqa
+            pass
+        b.fill(d, g.rng.randint(1, 2))
+        ctx.count("changed-after-first-export")
     w.enc_rdf(d)
     return w, d, scenario
 
